@@ -337,7 +337,7 @@ def wait_bootup_stream(nhb, period_ms):
     sx.fail("wait_for_bootup returned without a boot-up", "C11/wait/bootup-spurious")
 
 
-def wait_threads(kind, prior, traffic=0):
+def wait_threads(kind, prior, traffic=0, preempt=0):
     """the heartbeat arrives from a second thread while the caller enters / sits in the wait (traffic: another
     master's NMT command for some other node passes on the bus just before it)"""
     rig = Rig()
@@ -347,7 +347,7 @@ def wait_threads(kind, prior, traffic=0):
     b = 0 if kind == "bootup" else sx.fresh_byte("hb")
     if kind != "bootup":
         sx.assume(sx.any_([(b & 0x7F) == x for x in STATES]))
-    sched = sx.scheduler()
+    sched = sx.scheduler(preempt=preempt)
 
     def bus():
         if traffic:
@@ -375,14 +375,14 @@ def wait_threads(kind, prior, traffic=0):
     sx.reach("threads-woken")
 
 
-def two_waiters(kinds):
+def two_waiters(kinds, preempt=0):
     """two threads wait on the same remote node (heartbeat / boot-up) while a third delivers one message, every
     schedule at lock granularity: when both were parked in their wait at the moment the message arrived, both waits
     return - a message is not used up by the first waiter that looks at it.  (A waiter that *starts* while another
     one is being woken resets the shared flag: that interleaving is outside the claim.)"""
     rig = Rig()
     NmtError = sx.mod("canopen.nmt").NmtError
-    sched = sx.scheduler()
+    sched = sx.scheduler(preempt=preempt)
     res, parked = {}, {}
 
     def wait(kind, who):
